@@ -399,11 +399,21 @@ func verifC10GenEnv(r *verifutil.Rand, pathNames []string, hostile bool) []verif
 	return out
 }
 
+// names of the generated paths that can be addressed through the environment in the ASCII fragment
+// the Lean class predicates are defined on (strings.ToUpper/ToLower are Unicode-aware)
 func verifC10PathNamesOf(top map[string]any) []string {
 	p, _ := top["paths"].(map[string]any)
 	var out []string
 	for k := range p {
-		out = append(out, k)
+		ascii := true
+		for i := 0; i < len(k); i++ {
+			if k[i] >= 0x80 {
+				ascii = false
+			}
+		}
+		if ascii {
+			out = append(out, k)
+		}
 	}
 	sortStrings(out)
 	return out
